@@ -298,8 +298,8 @@ def main(tier, seed, replay=None):
             rep.known_finding("n-cand-cuts-1 " + one_cut)
         rep.cov["excluded_configuration"] = dict(n_cand_cuts=1, reason=one_cut,
                                                  note="no network is returned, so there is nothing to evaluate; excluded from the generator while it raises")
-    ncase = 64 if tier == "quick" else 480
-    nhand = 16 if tier == "quick" else 96
+    ncase = 64 if tier == "quick" else 1500
+    nhand = 16 if tier == "quick" else 300
     cases = []
     dist = dict(learner={}, regime={}, vars={}, cuts={}, depth={}, root_unsplit=0, rows=0, data_rows=[10 ** 9, 0])
     t_impl = time.time()
